@@ -58,7 +58,14 @@ func init() {
 			p.anyTab[ptr] = b.content
 			return iface{}
 		case []value:
-			// raw bytes that did not come from Marshal: the codec is outside the model
+			// raw bytes that did not come from Marshal: the codec is outside the model, except
+			// for input no protobuf message can start with: a first tag byte with wire type 6 or 7
+			// (or the reserved field number 0) is refused by every decoder
+			if len(b) > 0 {
+				if b0, ok := b[0].(uint8); ok && (b0&7 >= 6 || b0>>3 == 0) {
+					return fr.i.newError("<proto: cannot parse invalid wire-format data>")
+				}
+			}
 			panic(unsupported("proto.Unmarshal of raw wire bytes (protobuf codec is not modelled)"))
 		}
 		panic(unsupported("proto.Unmarshal: unexpected argument"))
